@@ -718,6 +718,20 @@ func (s *scenario) mapCoords() {
 	s.c.Emit(fmt.Sprintf("c13 mapc %d %d", w, h), fmt.Sprintf("n=%d once=%d bad=%d", w*h, once, bad))
 }
 
+// try runs one scenario; a panic while it builds its structures or computes the sequential
+// answers (library code running on ONE goroutine -- only a broken tree does that) becomes a case
+// of its own instead of ending the whole run.
+func (s *scenario) try(kind string, f func()) {
+	defer func() {
+		if r := recover(); r != nil {
+			msg := strings.SplitN(fmt.Sprint(r), "\n", 2)[0]
+			s.c.Stat("scenario-panicked:"+kind, 1)
+			s.c.Emit(fmt.Sprintf("c13 %s scenario-setup seq=ok", kind), "panic:"+strings.ReplaceAll(msg, " ", "_"))
+		}
+	}()
+	f()
+}
+
 func run(c *hlib.Ctx) {
 	s := &scenario{race: c.Prop == "C13RACE", c: c}
 	if s.race && runtime.GOMAXPROCS(0) < 4 {
@@ -730,51 +744,61 @@ func run(c *hlib.Ctx) {
 	}
 	for r := 0; r < rounds; r++ {
 		for _, n := range threadCounts {
-			s.meshq3(n)
-			s.meshq2(n)
+			n := n
+			s.try("meshq3", func() { s.meshq3(n) })
+			s.try("meshq2", func() { s.meshq2(n) })
 		}
 		n := threadCounts[r%len(threadCounts)]
-		s.derived3(n)
-		s.derived2(n)
-		s.cacheFunc(n)
-		s.sharedq(n, collFamilies[r%len(collFamilies)])
-		s.sharedobj(n, objFamilies[r%len(objFamilies)])
-		s.sharedsolid(n, solidFamilies[r%len(solidFamilies)])
-		s.sdfhist()
+		s.try("derived3", func() { s.derived3(n) })
+		s.try("derived2", func() { s.derived2(n) })
+		s.try("cachefunc", func() { s.cacheFunc(n) })
+		s.try("sharedq", func() { s.sharedq(n, collFamilies[r%len(collFamilies)]) })
+		s.try("sharedobj", func() { s.sharedobj(n, objFamilies[r%len(objFamilies)]) })
+		s.try("sharedsolid", func() { s.sharedsolid(n, solidFamilies[r%len(solidFamilies)]) })
+		s.try("sdfhist", s.sdfhist)
+		s.try("sharediter", func() { s.sharedIter(n) })
+		s.try("sharedrender", func() { s.sharedRender(n) })
 		if !s.race {
-			s.mapCoords()
+			s.try("meshiter3", func() { s.meshIter(3) })
+			s.try("meshiter2", func() { s.meshIter(2) })
+			s.try("rendercfg", s.renderCfg)
+			s.try("mapc", s.mapCoords)
 			// schedule-controlled scenarios: fully synchronised by construction, so they are of
 			// no use to the race detector
 			for _, fam := range collFamilies {
-				s.nestq(fam)
+				fam := fam
+				s.try("nestq", func() { s.nestq(fam) })
 			}
-			s.nestobj(objFamilies[r%len(objFamilies)])
-			s.nestobj(objFamilies[(r+2)%len(objFamilies)])
+			s.try("nestobj", func() { s.nestobj(objFamilies[r%len(objFamilies)]) })
+			s.try("nestobj", func() { s.nestobj(objFamilies[(r+2)%len(objFamilies)]) })
 			for _, fam := range solidFamilies {
-				s.nestsolid(fam)
+				fam := fam
+				s.try("nestsolid", func() { s.nestsolid(fam) })
 			}
 			for _, fam := range solidFamilies2 {
-				s.nestsolid2(fam)
+				fam := fam
+				s.try("nestsolid2", func() { s.nestsolid2(fam) })
 			}
-			s.renderSched()
-			s.nestcache()
+			s.try("rendersched", s.renderSched)
+			s.try("nestcache", s.nestcache)
 			if r%10 == 0 {
-				s.kmeansSched()
+				s.try("kmeanssched", s.kmeansSched)
+				s.try("renderlog", s.renderLog)
 			}
 		}
 		if r%2 == 0 || s.race {
-			s.rasterize()
-			s.kmeans()
-			s.meshing()
-			s.meshing2()
-			s.render()
-			s.heightMap()
+			s.try("rast", s.rasterize)
+			s.try("kmeans", s.kmeans)
+			s.try("meshing", s.meshing)
+			s.try("meshing2", s.meshing2)
+			s.try("render", s.render)
+			s.try("heightmap", s.heightMap)
 		}
 		if r%3 == 0 || s.race {
-			s.dcInterior()
+			s.try("dcinterior", s.dcInterior)
 		}
 		if s.race {
-			s.renderRace()
+			s.try("renderRace", s.renderRace)
 		}
 	}
 }
